@@ -474,9 +474,12 @@ pub fn encode_with_dist_header_multi(terms: &[&OwnedTerm]) -> Result<Vec<u8>, En
         buf.put_u8(0);
     }
 
+    // The LongAtoms bit lives in the half-byte that follows the last reference's half-byte:
+    // the low nibble of the last flag byte for an even count, the high nibble for an odd one.
     let long_atoms = atoms.iter().any(|a| a.name.len() > 255);
     if long_atoms {
-        buf[flags_start_pos + flags_len - 1] |= 0x01;
+        let nibble_shift = if atoms.len() % 2 == 0 { 0 } else { 4 };
+        buf[flags_start_pos + flags_len - 1] |= 0x01 << nibble_shift;
     }
 
     for (index, atom) in atoms.iter().enumerate() {
